@@ -1217,3 +1217,73 @@ def monitor_c11(se, stats):
             if not any(x[2] == "basic.get-ok" for x in frames_of(st)):
                 viol.append({"step": i, "kind": "canary", "what": "the canary connection did not get its message back after %s (frames %s)" % (last_raw, st["frames"])})
     return viol
+
+
+def monitor_c09(se, stats):
+    """Restart keeps exactly the durable topology and the stored messages: after a RESTART step every queue and every
+    exchange that is not pre-declared is durable, every durable one from before is there with its flags, a binding is
+    there iff it was there before and its queue survived, a surviving queue holds exactly the persistent messages it
+    held (waiting or unsettled), in publish order, and nothing else."""
+    viol = []
+    prev = None
+    pers = {}
+    for i, st in enumerate(se["steps"]):
+        if st["snap"] == ["WEDGED"]:
+            if st["op"] == "RESTART":
+                viol.append({"step": i, "kind": "restart-wedged", "what": "the broker did not come back from the restart (%s)" % st.get("note")})
+            break
+        cur = parse_snap(st["snap"])
+        for g in ([x.strip().split() for x in st["op"][6:].split("|")] if st["op"].startswith("MULTI ") else [st["op"].split()]):
+            if g[0] == "PUB":
+                pers[g[8]] = g[7] == "1"
+        if st["op"] == "RESTART" and prev is not None:
+            stats["restarts"] = stats.get("restarts", 0) + 1
+            raw = {"p": {}, "c": {}}
+            for k, sn in (("p", prev), ("c", cur)):
+                for l in sn["raw"]:
+                    if l.startswith("queue "):
+                        m = re.match(r"queue (\S+) .* ad=(\d) dur=(\d)", l)
+                        raw[k][("q", m.group(1))] = (m.group(2), m.group(3))
+                    elif l.startswith("exchange "):
+                        m = re.match(r"exchange (\S*) type=(\d) dur=(\d) ad=(\d) int=(\d) bindings=\[(.*?)\]$", l)
+                        raw[k][("x", m.group(1))] = (m.group(2), m.group(3), m.group(4), m.group(5), m.group(6).split())
+            for key, v in raw["p"].items():
+                if key[0] == "q":
+                    durable = v[1] == "1"
+                    stats["queues_over_restart"] = stats.get("queues_over_restart", 0) + 1
+                    if durable and key not in raw["c"]:
+                        viol.append({"step": i, "kind": "lost", "what": "durable queue %s did not survive the restart" % key[1]})
+                    if not durable and key in raw["c"]:
+                        viol.append({"step": i, "kind": "ghost", "what": "non-durable queue %s came back from the restart" % key[1]})
+                    if durable and key in raw["c"] and raw["c"][key] != v:
+                        viol.append({"step": i, "kind": "altered", "what": "durable queue %s came back with flags %s instead of %s" % (key[1], raw["c"][key], v)})
+                else:
+                    system = key[1] == "" or key[1].startswith("amq.")
+                    durable = v[1] == "1"
+                    if (durable or system) and key not in raw["c"]:
+                        viol.append({"step": i, "kind": "lost", "what": "durable exchange %s did not survive the restart" % key[1]})
+                    if not durable and not system and key in raw["c"]:
+                        viol.append({"step": i, "kind": "ghost", "what": "non-durable exchange %s came back from the restart" % key[1]})
+                    if key in raw["c"]:
+                        if raw["c"][key][:4] != v[:4]:
+                            viol.append({"step": i, "kind": "altered", "what": "exchange %s came back as %s instead of %s" % (key[1], raw["c"][key][:4], v[:4])})
+                        want = sorted(b for b in v[4] if raw["p"].get(("q", b.split("<-")[0]), ("0", "0"))[1] == "1")
+                        got = sorted(raw["c"][key][4])
+                        stats["bindings_over_restart"] = stats.get("bindings_over_restart", 0) + len(want)
+                        if want != got:
+                            viol.append({"step": i, "kind": "bindings", "what": "exchange %s: bindings after the restart %s, expected %s (those to surviving queues)" % (key[1], got, want)})
+            for key in raw["c"]:
+                if key not in raw["p"]:
+                    viol.append({"step": i, "kind": "ghost", "what": "%s %s appeared out of nothing after the restart" % ("queue" if key[0] == "q" else "exchange", key[1])})
+            # messages
+            for qn, q in cur["queues"].items():
+                pq = prev["queues"].get(qn)
+                if pq is None:
+                    continue
+                held = list(pq["ready"]) + [u["uid"] for ch in prev["chans"].values() for u in ch["unacked"] if u["queue"] == qn]
+                want = sorted((u for u in held if pers.get(u)), key=lambda x: int(x) if x.isdigit() else 0)
+                stats["messages_over_restart"] = stats.get("messages_over_restart", 0) + len(want)
+                if q["ready"] != want:
+                    viol.append({"step": i, "kind": "messages", "what": "queue %s holds %s after the restart, expected its persistent messages %s in publish order" % (qn, q["ready"], want)})
+        prev = cur
+    return viol
